@@ -122,7 +122,7 @@ def run_workers(prop, tier, seed, jobs, ncases):
 
 def aggregate(results):
     agg = {'counters': Counter(), 'events': [], 'nontrivial': set(), 'stats': {},
-           'tallies': {}, 'samples': [], 'notes': Counter(), 'cases_run': 0,
+           'tallies': {}, 'samples': [], 'notes': Counter(), 'sets': {}, 'cases_run': 0,
            'cases_total': 0, 'paths': set()}
     for r in results:
         agg['counters'].update(r['counters'])
@@ -140,6 +140,8 @@ def aggregate(results):
             if len(agg['samples']) < 8:
                 agg['samples'].append(s)
         agg['notes'].update(r['notes'])
+        for k, v in r.get('sets', {}).items():
+            agg['sets'].setdefault(k, set()).update(v)
         agg['cases_run'] += r['cases_run']
         agg['cases_total'] = r['cases_total']
         agg['paths'].add(r.get('copulas_path'))
@@ -283,6 +285,7 @@ def main(argv=None):
         'extreme_observations': agg['stats'],
         'tallies': {k: {'successes': v[0], 'trials': v[1]} for k, v in agg['tallies'].items()},
         'notes': dict(sorted(agg['notes'].items())),
+        'distinct_observed': {k: len(v) for k, v in sorted(agg['sets'].items())},
         'known_findings_observed': dict(claimed),
         'unlisted_violation_mechanisms': sorted({e['mech'] for e in unclaimed}),
         'inconclusive_events': len(inconcl),
